@@ -10,11 +10,7 @@
 
 mod alloc;
 mod common;
-
-mod c04;
-mod c08;
-mod c09;
-mod c18;
+mod sim;
 
 use std::{collections::BTreeSet, path::PathBuf};
 
@@ -22,6 +18,39 @@ use common::{Ctx, Report, Tier};
 
 #[global_allocator]
 static GLOBAL: alloc::Tracking = alloc::Tracking;
+
+/// one line per property module: `run(ctx, rep)` and `replay(sub, case)`
+macro_rules! properties {
+    ($($id:literal => $m:ident),* $(,)?) => {
+        $(mod $m;)*
+        fn dispatch_run(ctx: &Ctx, rep: &mut Report) {
+            match ctx.prop.as_str() {
+                $($id => $m::run(ctx, rep),)*
+                other => {
+                    eprintln!("unknown property {other}");
+                    std::process::exit(2);
+                }
+            }
+        }
+        fn dispatch_replay(prop: &str, sub: &str, case: &serde_json::Value) -> Result<common::CaseInfo, common::Fail> {
+            match prop {
+                $($id => $m::replay(sub, case),)*
+                other => {
+                    eprintln!("unknown property {other}");
+                    std::process::exit(2);
+                }
+            }
+        }
+    };
+}
+
+properties! {
+    "C04" => c04,
+    "C07" => c07,
+    "C08" => c08,
+    "C09" => c09,
+    "C18" => c18,
+}
 
 fn usage() -> ! {
     eprintln!("usage: kverif run <PROP> --tier T --seed N --worker I --workers N --out FILE | kverif replay <PROP> <file>");
@@ -96,6 +125,10 @@ fn main() {
                 Ok(_) => {
                     println!("REPLAY-PASS property={prop} sub={sub}");
                 }
+                Err(f) if f.clause == "infra" => {
+                    println!("REPLAY-INFRA property={prop} sub={sub} msg={}", f.msg);
+                    std::process::exit(2);
+                }
                 Err(f) => {
                     println!("REPLAY-FAIL property={prop} sub={sub} clause={} finding={:?} msg={}", f.clause, f.finding, f.msg);
                     std::process::exit(1);
@@ -103,31 +136,5 @@ fn main() {
             }
         }
         _ => usage(),
-    }
-}
-
-fn dispatch_run(ctx: &Ctx, rep: &mut Report) {
-    match ctx.prop.as_str() {
-        "C04" => c04::run(ctx, rep),
-        "C08" => c08::run(ctx, rep),
-        "C09" => c09::run(ctx, rep),
-        "C18" => c18::run(ctx, rep),
-        other => {
-            eprintln!("unknown property {other}");
-            std::process::exit(2);
-        }
-    }
-}
-
-fn dispatch_replay(prop: &str, sub: &str, case: &serde_json::Value) -> Result<common::CaseInfo, common::Fail> {
-    match prop {
-        "C04" => c04::replay(sub, case),
-        "C08" => c08::replay(sub, case),
-        "C09" => c09::replay(sub, case),
-        "C18" => c18::replay(sub, case),
-        other => {
-            eprintln!("unknown property {other}");
-            std::process::exit(2);
-        }
     }
 }
